@@ -73,3 +73,61 @@ Theorem C05_one_in_flight_acceptor_verdicts : forall x cap0 fx ls iv,
   snd iv = Monitor.V_TWO_IN_FLIGHT_CLOSING /\ fx = false.
 Proof. exact MonitorSound.one_in_flight_verdicts. Qed.
 Print Assumptions C05_one_in_flight_acceptor_verdicts.
+
+(** ** Round "proofs": blocking mode - liveness without a pending writer, publish order *)
+From WM Require GoChannel.RegLive GoChannel.RegBlock.
+
+(** "Publish does return ..." fails only through a pending writer (D9).  In every reachable state
+    (any mode, all schedules) in which no Subscribe / replay / teardown is between its write-lock
+    request and its unlock and something is busy, some internal step is enabled, or a Publish is
+    at its wait for a message whose snapshot was taken, not yet acked, nothing closing - and the
+    environment step "all Senders of p have finished" is enabled: a blocked Publish waits for
+    nothing but its subscribers' Acks. *)
+Theorem C05_blocking_progress_without_pending_writer : forall pers blk fx ls,
+  let s := grun (ginit pers blk fx) ls in
+  writer s = None -> wpending s = [] -> RegLive.busy s ->
+  (exists l, RegLive.internal l = true /\ RegLive.en s l) \/ RegBlock.Waiting s.
+Proof. exact RegBlock.blocking_progress_without_pending_writer. Qed.
+Print Assumptions C05_blocking_progress_without_pending_writer.
+
+(** the D9 deadlock state is exactly in the complement: an announced writer *)
+Example C05_d9_has_pending_writer :
+  let s := grun (ginit false true true) d9_schedule in
+  wpending s = [OwS 1] /\ writer s = None /\ Reg.thr s 0 = PWait 0 1 [] /\ mem 1 (acked s) = false.
+Proof. exact RegBlock.d9_has_pending_writer. Qed.
+
+(** every run of internal steps is bounded by the measure - blocking mode included *)
+Theorem C05_blocking_internal_runs_bounded : forall pers blk fx ls ils s',
+  let s := grun (ginit pers blk fx) ls in
+  forallb RegLive.internal ils = true -> greplay s ils = Some s' ->
+  length ils + RegLive.measure s' <= RegLive.measure s.
+Proof. exact RegBlock.blocking_internal_run_bounded. Qed.
+Print Assumptions C05_blocking_internal_runs_bounded.
+
+(** per-publisher order, registry half: in blocking mode a Publish call takes the snapshot of a
+    message only after every earlier message of the same call is acked by all subscribers of its
+    snapshot (or the Pub/Sub is closing); no Sender of the later message exists before that *)
+Theorem C05_blocking_snapshot_order : forall pers ls t k p rem,
+  let s := grun (ginit pers true true) ls in
+  Reg.thr s t = PSend k (p :: rem) ->
+  exists done, pmsgs s t = done ++ p :: rem
+    /\ (forall q, In q done -> mem q (acked s) = true \/ gclosing s = true)
+    /\ (forall x, nsenders s p x = 0).
+Proof. exact RegBlock.blocking_snapshot_order. Qed.
+Print Assumptions C05_blocking_snapshot_order.
+
+(** per-publisher order, subscription half: when the Sender of p1 has returned on a subscription
+    that is not closing and no Sender of p2 has been spawned yet (which is the situation the
+    registry guarantees when it takes p2's snapshot: p1 is acked = all its Senders returned),
+    the history of that subscription contains a receipt of p1 and none of p2: first receipts
+    are in publish order.  Any consumer (Nacks allowed), every schedule. *)
+From WM Require GoChannel.SubFifo.
+Theorem C05_blocking_order_on_subscription : forall x cap0 fx ls p1 p2 t1,
+  let s := srun (sinit cap0 fx) ls in
+  let h := MonitorSound.trace x (sinit cap0 fx) ls in
+  NoDup (MonitorSound.spawn_pubs ls) ->
+  closing s = false -> Sub.thr s t1 = Sub.SDone p1 ->
+  (forall t, MonitorSound.spc_pub (Sub.thr s t) <> Some p2) ->
+  1 <= Monitor.count_recv h x p1 /\ Monitor.count_recv h x p2 = 0.
+Proof. exact SubFifo.fifo_at_spawn. Qed.
+Print Assumptions C05_blocking_order_on_subscription.
